@@ -765,6 +765,14 @@ class Interp(object):
                     return (r[1] != 0) == truth
                 if truth and a[0] == 'ptr' and b[0] == 'ptr':
                     return st.union(a[2], b[2])
+                # an opaque pointer value (e.g. read from a summary node) compared with a known pointer
+                for x, y in ((a, b), (b, a)):
+                    if x[0] == 'sym' and y[0] in ('ptr', 'fn'):
+                        if truth:
+                            st.eq[x] = y
+                            st.touch()
+                        else:
+                            st.neq.add(frozenset((x, y)))
                 return True
             if truth:
                 return st.union(a, b)
